@@ -569,7 +569,7 @@ def _(H):
     chosen = H.rng.sample(ex, H.rng.randint(0, len(ex)))
     d = {r.id: H.rng.choice([0, 1, 10, 5.5, 1000]) for r in chosen}
     H.model.medium = d
-    return {"medium": d}
+    return {"medium": d, "exchanges": [r.id for r in ex]}
 
 
 # ============================================================================
